@@ -26,7 +26,13 @@ def run_check(prop: str, tier: str, repo_root=None, write=True):
             mod = importlib.import_module(f'cirbo_verif.rules.{prop}')
         except ModuleNotFoundError:
             raise AnalysisError(f'no rules implemented for {prop}')
-        mod.run(ck)
+        try:
+            mod.run(ck)
+        except AnalysisError as e:
+            # verdicts of completed rule instances stand; the rest is undecided
+            if not any(o.status == 'violation' for o in ck.obligations):
+                raise
+            print(f'ANALYSIS-ERROR (after violations were found) property={prop}: {e}')
         if not ck.obligations:
             raise AnalysisError(f'{prop}: no obligations generated')
         extra = None
